@@ -20,17 +20,47 @@ open Kanidm Kanidm.Proto Kanidm.Filter
 def fields (line : String) : List String :=
   (line.splitOn "|").map (fun s => s.trimAscii.toString)
 
-/-- total order used only to break `cmp`-ties canonically: by rendered text -/
-def tieLe (desc : Bool) (x y : F) : Bool :=
-  let c := if desc then y.cmp x else x.cmp y
-  c == .lt || (c == .eq && x.render ≤ y.render)
+/-- total order used only to break `cmp`-ties canonically: by the text of the canonical form -/
+def tieLe (desc : Bool) (x y : F × String) : Bool :=
+  let c := if desc then y.1.cmp x.1 else x.1.cmp y.1
+  c == .lt || (c == .eq && x.2 ≤ y.2)
 
+def insertP (le : α → α → Bool) (x : α) : List α → List α
+  | [] => [x]
+  | y :: ys => if le x y then x :: y :: ys else y :: insertP le x ys
+
+/-- canonical form: children re-sorted by (`cmp`, canonical text), then `dedup` again -/
 partial def canonTie : F → F
-  | .and l s => .and (dedup (isortBy (tieLe false) (l.map canonTie))) s
-  | .inclusion l s => .inclusion (dedup (isortBy (tieLe false) (l.map canonTie))) s
-  | .or l s => .or (dedup (isortBy (tieLe true) (l.map canonTie))) s
+  | .and l s => .and (canonList false l) s
+  | .inclusion l s => .inclusion (canonList false l) s
+  | .or l s => .or (canonList true l) s
   | .andnot f s => .andnot (canonTie f) s
   | f => f
+where
+  canonList (desc : Bool) (l : List F) : List F :=
+    let keyed := l.map (fun f => let c := canonTie f; (c, c.render))
+    dedup ((keyed.foldr (insertP (tieLe desc)) []).map (·.1))
+
+def sortedDir (desc : Bool) : List F → Bool
+  | x :: y :: rest => (if desc then y.cmp x != .gt else x.cmp y != .gt) && sortedDir desc (y :: rest)
+  | _ => true
+
+/-- `g` differs from the model's output `m` only by the order of `cmp`-ties (and the de-duplication
+that follows from it): wherever the model's list is sorted, `g`'s must be sorted too and agree after
+canonical tie-breaking; wherever it is not (lists `fast_optimise` does not touch), element by element. -/
+partial def tieEq : F → F → Bool
+  | .and l1 s1, .and l2 s2 => s1 == s2 && listTie false l1 l2
+  | .inclusion l1 s1, .inclusion l2 s2 => s1 == s2 && listTie false l1 l2
+  | .or l1 s1, .or l2 s2 => s1 == s2 && listTie true l1 l2
+  | .andnot f1 s1, .andnot f2 s2 => s1 == s2 && tieEq f1 f2
+  | x, y => x.render == y.render
+where
+  listTie (desc : Bool) (l1 l2 : List F) : Bool :=
+    if sortedDir desc l1 then
+      sortedDir desc l2 &&
+        (canonTie.canonList desc l1).map F.render == (canonTie.canonList desc l2).map F.render
+    else
+      l1.length == l2.length && (l1.zip l2).all (fun p => tieEq p.1 p.2)
 
 def itypeOf (s : String) : Option IType :=
   match s with
@@ -56,7 +86,7 @@ def handle (ents : List Entry) (line : String) : List Entry × String :=
         let m := if mode == "fast" then f.fastOptimise sortAsc else f.optimise sortAsc sortDesc
         let cert := if isOptimiseOf f g then "cert" else "nocert"
         if m.render == g.render then (ents, s!"exact {cert}")
-        else if (canonTie m).render == (canonTie g).render then (ents, s!"tie {cert}")
+        else if tieEq m g then (ents, s!"tie {cert}")
         else (ents, s!"DIFF {cert} {m.render}")
       | _, _ => (ents, "bad-filter")
     | ["res", mode, self, uuidA, nameA, imeta] =>
